@@ -45,7 +45,7 @@ META = {
 }
 
 TIERS = {"quick": {"programs": 40, "chains": 4, "model_len": 2, "batch": 40},
-         "thorough": {"programs": 1000, "chains": 20, "model_len": 3, "batch": 50}}
+         "thorough": {"programs": 600, "chains": 20, "model_len": 3, "batch": 50}}
 
 
 def violations_of(dev, index, progs_of_batch):
@@ -101,7 +101,7 @@ def main(tier, seed, replay=None):
             for c in ch:
                 first_letters.add(c[0])
             return ch
-        records, index, stats = rr.run_corpus(batch, chains_of, facts=False, witness_every=1 if tier == "quick" else 3)
+        records, index, stats = rr.run_corpus(batch, chains_of, facts=False, witness_every=4)
         n, dev, drv = rr.judge(records)
         nsteps_judged += n
         driver_bad += drv
